@@ -2,7 +2,8 @@
    Only statements closed by [exact lemma], their non-vacuity examples, refutation witnesses for the
    defective variants, and Print Assumptions. *)
 From Coq Require Import List String Bool.
-From Verif Require Import Model.PublicView Gen.GenFields Proofs.PublicViewCore Proofs.PublicView Glue.FieldsGlue.
+From Verif Require Import Model.PublicView Gen.GenFields Proofs.PublicViewCore Proofs.PublicView Proofs.PublicViewWallet
+  Glue.FieldsGlue.
 Import ListNotations.
 Open Scope string_scope.
 
@@ -40,6 +41,31 @@ Proof. exact walletkey_public_view_clean_thm. Qed.
 Theorem walletkey_default_exports_clean : forall w h o lab v,
   wdefault_export o = true -> In (lab, v) (wexports o (wrun h (wk_init w))) -> v <> VSec.
 Proof. exact walletkey_default_exports_clean_thm. Qed.
+
+(* --- Wallet: every configuration (main key a private master key, a PRIVATE or public account-level key, a single
+       key; plain or as cosigner wallets of a multisig wallet), every history on the wallet and its cached key
+       objects (key() parses, private exports, reopening ...): each WalletKey handed out by public_master() with
+       default arguments is a stripped copy, and stays clean under every later history on it --- *)
+Theorem wallet_public_view_clean : forall cfg h v h2 a,
+  In v (wallet_public_master (wal_run h (wal_init cfg)) false) ->
+  (is_private wk_class a = true -> blank (kf (wrun h2 v) a) = true) /\
+  (is_handle wk_class a = false -> kf (wrun h2 v) a <> VSec).
+Proof. exact wallet_public_view_clean_thm. Qed.
+
+(* the same for the views taken as operations of the history: public_master() of the wallet or of one cosigner
+   wallet, main_key.public() *)
+Theorem wallet_returns_clean : forall cfg h o v h2 a,
+  returns_a_view (lop_of o) = true ->
+  In v (wal_returns o (wal_run h (wal_init cfg))) ->
+  (is_private wk_class a = true -> blank (kf (wrun h2 v) a) = true) /\
+  (is_handle wk_class a = false -> kf (wrun h2 v) a <> VSec).
+Proof. exact wallet_returns_clean_thm. Qed.
+
+(* wif() / wif(is_private=False), as_dict() / as_json(), info(), repr, public_master().key() of every wallet *)
+Theorem wallet_default_exports_clean : forall cfg h o lab v,
+  wal_default_export (lop_of o) = true ->
+  In (lab, v) (wal_exports o (wal_run h (wal_init cfg))) -> v <> VSec.
+Proof. exact wallet_default_exports_clean_thm. Qed.
 
 (* --- database and wallet-level exports --- *)
 Theorem private_columns_encrypted : forall c, In c private_write_columns -> In c dbkey_encrypted_columns.
@@ -97,6 +123,15 @@ Proof.
   exact (conj dbkey_writes_glue (conj (proj1 dbkey_encrypted_glue) (conj (proj2 wallet_as_dict_glue) bind_condition_glue))).
 Qed.
 
+Theorem wallet_methods_glue :
+  (GenFields.wallet_public_master_paths = PublicView.wallet_public_master_paths /\
+   GenFields.wallet_wif_paths = PublicView.wallet_wif_paths) /\
+  (GenFields.hdkey_public_master_paths = PublicView.hdkey_public_master_paths /\
+   GenFields.walletkey_key_paths = PublicView.walletkey_key_paths /\
+   GenFields.as_json_paths = PublicView.as_json_paths) /\
+  GenFields.export_signatures = PublicView.export_signatures.
+Proof. exact (conj wallet_paths_glue (conj method_bodies_glue export_signatures_glue)). Qed.
+
 (* --- non-vacuity: the histories the theorems talk about really move secrets around --- *)
 Example wif_fills_the_cache_and_public_clears_it :
   let k := run [OWif] (init false (KPriv true)) in
@@ -125,6 +160,24 @@ Example walletkey_private_state_and_public :
   In ("wif", VSec) (wexports (WAsDict true) k).
 Proof. vm_compute. repeat split; tauto. Qed.
 
+(* a wallet created from a PRIVATE account-level key: its main key IS the key public_master() starts from;
+   as_private=True hands it out as it is, the default strips a copy and leaves the cached main key alone *)
+Example account_level_private_wallet :
+  let w := wal_run [WTop LMainKey; WTop (LWif true)] (wal_init (CSimple WcAcctPriv)) in
+  map (fun v => (kf v "key_private", kf v "wif", kf v "_hdkey_object")) (wallet_public_master w true) = [(VSec, VSec, VSec)] /\
+  map (fun v => (kf v "key_private", kf v "wif", kf v "_hdkey_object")) (wallet_public_master w false) = [(VNone, VPub, VPub)] /\
+  map (fun k => kf k "key_private") (wal_mains (wal_step (WTop (LPm false)) w)) = [VSec] /\
+  In ("wif", VSec) (wal_exports (WTop (LWif true)) w) /\ wal_exports (WTop (LWif false)) w = [("wif", VPub)].
+Proof. vm_compute. repeat split; tauto. Qed.
+
+Example multisig_wallet_with_private_account_key :
+  let w := wal_run [WCos 0 LMainKey; WTop LReopen; WTop LSrcKey] (wal_init (CMulti [WcAcctPriv; WcAcctPub; WcSinglePriv])) in
+  map (fun v => kf v "key_private") (wallet_public_master w true) = [VSec; VNone; VSec] /\
+  map (fun v => (kf v "key_private", kf v "wif")) (wallet_public_master w false) = [(VNone, VPub); (VNone, VPub); (VNone, VPub)] /\
+  In ("wif", VSec) (wal_exports (WTop (LWif true)) w) /\
+  In ("private", VSec) (wal_exports (WCos 0 (LAsDict true)) w).
+Proof. vm_compute. repeat split; tauto. Qed.
+
 Example plaintext_without_key : stored false "private" VSec = Plain VSec /\ stored true "public" VPub = Plain VPub.
 Proof. vm_compute. split; reflexivity. Qed.
 
@@ -147,6 +200,25 @@ Example dbkey_repr_refuted :
   In ("self.wif", VSec) (map (fun le => (fst le, eval (snd le) (wk_init (WkPrivate false)))) (args_exprs dbkey_repr_args)).
 Proof. vm_compute. tauto. Qed.
 
+(* Wallet.public_master() with a fast path that returns self.main_key when the main key already sits at the
+   account depth (a test and a body the model does not know, read fail-closed): the "public" master key of a
+   wallet created from a private account-level key is the private WalletKey *)
+Example public_master_fast_path_refuted :
+  let tbl := [ ([(g_single, true)], pm_body_main);
+               ([(g_single, false); (g_nocos, true);
+                 ("self.main_key and 0 < self.main_key.depth == self.depth_public_master", true)], ["return self.main_key"]);
+               ([(g_single, false); (g_nocos, true);
+                 ("self.main_key and 0 < self.main_key.depth == self.depth_public_master", false)], pm_body_path);
+               ([(g_single, false); (g_nocos, false)], pm_body_cos) ] in
+  exists v, In v (pm_results tbl (wal_init (CSimple WcAcctPriv)) false) /\ kf v "key_private" = VSec /\ kf v "wif" = VSec.
+Proof. eexists. split; [left; reflexivity | vm_compute; split; reflexivity]. Qed.
+
+(* Wallet.wif() returning the main key's wif without looking at is_private *)
+Example wallet_wif_of_main_key_refuted :
+  In ("wif", VSec) (wif_exports wallet_public_master_paths [([(g_plain, true)], wif_body_main)]
+                                (wal_init (CSimple WcMaster)) false).
+Proof. vm_compute. tauto. Qed.
+
 Print Assumptions public_view_clean.
 Print Assumptions public_view_no_secret.
 Print Assumptions classification_sound.
@@ -163,3 +235,7 @@ Print Assumptions public_methods_glue.
 Print Assumptions exports_glue.
 Print Assumptions repr_args_glue.
 Print Assumptions database_glue.
+Print Assumptions wallet_public_view_clean.
+Print Assumptions wallet_returns_clean.
+Print Assumptions wallet_default_exports_clean.
+Print Assumptions wallet_methods_glue.
